@@ -2,7 +2,20 @@
    translate/codec.py accepts (see its table).  Python str and bytes are both
    `str = list N`; Python ints are Z; a partial operation (indexing) is an
    option.                                                                  *)
-From CssV Require Import Base.
+From CssV Require Import Base Gen.PyTables.
+
+(* str.lower(), per character; table generated from the running interpreter (Gen/PyTables.v).  Same definition
+   as Tokenizer.lower, repeated here so that the codec cone does not depend on the tokenizer productions. *)
+Fixpoint assoc_lower (c : N) (tb : list (N * str)) : str :=
+  match tb with
+  | [] => [c]
+  | (k, v) :: r => if N.eqb k c then v else assoc_lower c r
+  end.
+Definition lower_char (c : N) : str :=
+  if N.ltb c 128 then (if N.leb 65 c && N.leb c 90 then [N.add c 32] else [c])
+  else assoc_lower c lower_table.
+Definition lower (x : str) : str := flat_map lower_char x.
+
 Local Open Scope Z_scope.
 
 Definition py_len (x : str) : Z := Z.of_nat (length x).
